@@ -441,10 +441,14 @@ def execute_c10(scenario, params, streams=None):
                     # (did the rewrite move byte intervals that existed before?
                     # padding is computed for the addresses before that)
                     relaid = any(bi.uuid in pre_addr and pre_addr[bi.uuid] != bi.address for bi in world.module.byte_intervals)
-                    sig = {"new_block": was is None, "zero_sized": size == 0, "layout_reordered": bool(obs.reordered), "relaid": relaid}
-                    if was is None:
+                    # a requirement is 'new' when the block did not exist before
+                    # or when a patch raised the requirement of the block it was
+                    # spliced into at offset 0 (the block object is reused)
+                    is_new = was is None or was[0] != a
+                    sig = {"new_block": is_new, "zero_sized": size == 0, "layout_reordered": bool(obs.reordered), "relaid": relaid}
+                    if is_new:
                         sig["paddable"] = _paddable_new_block(world, model, mt, sess, bu)
-                    raise core.Violation("C10", "alignment-lost", {"alignment": a, "new_block": was is None, "zero_sized": size == 0, "session": si}, sig)
+                    raise core.Violation("C10", "alignment-lost", {"alignment": a, "new_block": is_new, "zero_sized": size == 0, "session": si}, sig)
             _check_patch_alignment(world, model, mt, sess, si, obs)
             stats["aligned_blocks"] += sum(1 for v in post.values() if v[0] > 1)
             stats["pads"] += sum(len(p) for p in mt.pads.values())
